@@ -1,5 +1,6 @@
 import Fv.Lemmas.SyncRwWakeG
 import Fv.Lemmas.SyncRwWakeG2
+import Fv.Lemmas.SyncRwWakeG3
 import Fv.Lemmas.SyncRwWakeN3
 import Fv.Lemmas.SyncRwWakeK3
 /-!
@@ -8,6 +9,14 @@ Assembly of the wake invariant of the rwlock model: `WInv_step`, `WInv_init`, `W
 namespace Fv.Sync.RwLock
 open Fv.Sync
 variable {cfg : Cfg} {s s' : State} {t : Tid} {l : Lbl}
+
+theorem w1_step (hi : Inv s) (hw : WInv s) (h : Step cfg s t l s') : PW1 s' := by
+  intro n w hl hwt
+  cases n with
+  | thr u =>
+    have := w1_thr hi hw h u w hl hwt
+    subst this; simp [Targets]
+  | fut f => exact w1_fut hi hw h f w hl hwt
 
 theorem WInv_step (hi : Inv s) (h2 : Inv2 s) (hw : WInv s) (h : Step cfg s t l s') : WInv s' := by
   obtain ⟨p0, p1, p2, p3, p6⟩ := perthread_step hi hw h
